@@ -30,6 +30,16 @@ type Prop struct {
 	RunJob      func(tier, job string, from int, em *Emitter) // worker side
 	Budget      func(tier string) time.Duration
 	Workers     int
+	// Key: the name the check is registered under if it differs from the property id (a
+	// complement pass of a property that has a main check of its own)
+	Key string
+}
+
+func (p *Prop) key() string {
+	if p.Key != "" {
+		return p.Key
+	}
+	return p.ID
 }
 
 var Props = map[string]*Prop{}
@@ -308,7 +318,7 @@ func Main(p *Prop, tier string) int {
 			var out *bufio.Scanner
 			var stderr *bytes.Buffer
 			startW := func() error {
-				cmd = exec.Command(os.Args[0], "-worker", "-deadline", fmt.Sprint(deadline.Unix()), p.ID, tier)
+				cmd = exec.Command(os.Args[0], "-worker", "-deadline", fmt.Sprint(deadline.Unix()), p.key(), tier)
 				cmd.Env = append(os.Environ(), "GOMAXPROCS=2", "GOTRACEBACK=all")
 				stderr = &bytes.Buffer{}
 				cmd.Stderr = stderr
@@ -501,6 +511,9 @@ func Main(p *Prop, tier string) int {
 		bySig[g.Sig] += g.Count
 		if violations < 12 {
 			name := fmt.Sprintf("%d", violations+1)
+			if part := os.Getenv("VERIF_EVIDENCE_PART"); part != "" {
+				name = part + "-" + name // the parts of one property keep their replay files apart
+			}
 			path := evidence.WriteReplay(p.ID, name, map[string]interface{}{"property": p.ID, "signature": g.Sig, "atoms": g.Atoms,
 				"count": g.Count, "job": g.Job, "case": g.Example, "replay": fmt.Sprintf("./check %s %s --replay <this file>", p.ID, tier)})
 			vio = append(vio, fmt.Sprintf("VIOLATION property=%s replay=%s", p.ID, path))
